@@ -509,6 +509,15 @@ func (v *UnixVolume) Untrash(loc string) (err error) {
 	for _, f := range files {
 		if strings.HasPrefix(f.Name(), prefix) {
 			foundTrash = true
+			if _, serr := v.os.Stat(v.blockPath(loc)); serr == nil {
+				// The block is already in place (written or touched
+				// after this copy was trashed). Renaming the older
+				// trashed copy over it would bring back an old
+				// timestamp, making a freshly acknowledged block
+				// eligible for trashing again: keep the block.
+				err = nil
+				break
+			}
 			err = v.os.Rename(v.blockPath(f.Name()), v.blockPath(loc))
 			if err == nil {
 				break
